@@ -52,6 +52,11 @@ def main():
         for gname in (["arith", "mutual"] if quick else ["nested", "arith", "mutual", "nested", "arith", "mutual"]):
             configs.append({"rep": rk, "alg": "GP", "grammar": gname, "seed": R.randint(0, 10 ** 6), "init": "standard", "step": "xo",
                             "evals": 60, "pop": 8, "decider": "grow", "minimize": R.random() < 0.5, "own_tracker": R.random() < 0.5})
+    # weighted grammar with the consumers of production weights (progressively-terminal decider, stack machine)
+    for rk in ("tree", "ge", "stack"):
+        for alg in ("GP", "RS"):
+            configs.append({"rep": rk, "alg": alg, "grammar": "weighted", "seed": R.randint(0, 10 ** 6), "init": "standard",
+                            "evals": 40, "pop": 8, "decider": "pt", "minimize": R.random() < 0.5})
     for alg in ["GP", "HC", "RS", "OPO"]:
         configs.append({"rep": R.choice(reps), "alg": alg, "grammar": "refined", "seed": R.randint(0, 10 ** 6), "init": "standard",
                         "evals": 30, "pop": 8, "decider": "grow", "minimize": R.random() < 0.5, "own_tracker": True})
